@@ -302,6 +302,117 @@ func g1Delegations(l *leanFile, leanName, fn string, eras []string) {
 	l.pf("def %s : List (String × String) := [%s]\n\n", leanName, strings.Join(parts, ", "))
 }
 
+// g1MaxSizeSource says what an era's UtxoValidateMaxTxSizeUtxo measures: "stored" when
+// `txBytes` is first assigned from `tx.Cbor()` (with a re-encoding fallback only for an
+// empty result), "encode" when it is assigned from `cbor.Encode(tx)`, "forward:<f>" when
+// the function forwards, "unknown" otherwise.
+func g1MaxSizeSource(era string) string {
+	p := loadPkg("ledger/" + era)
+	fd := findFunc(p, "", "UtxoValidateMaxTxSizeUtxo")
+	if fd == nil || fd.Body == nil {
+		return "missing"
+	}
+	if f := g1ForwardsTo(era, "UtxoValidateMaxTxSizeUtxo"); f != "self" {
+		return "forward:" + f
+	}
+	res := "unknown"
+	done := false
+	ast.Inspect(fd.Body, func(n ast.Node) bool {
+		if done {
+			return false
+		}
+		as, ok := n.(*ast.AssignStmt)
+		if !ok || len(as.Lhs) < 1 || len(as.Rhs) != 1 {
+			return true
+		}
+		id, ok := as.Lhs[0].(*ast.Ident)
+		if !ok || id.Name != "txBytes" {
+			return true
+		}
+		call, ok := as.Rhs[0].(*ast.CallExpr)
+		if !ok {
+			return true
+		}
+		sel, ok := call.Fun.(*ast.SelectorExpr)
+		if !ok {
+			return true
+		}
+		x, _ := sel.X.(*ast.Ident)
+		switch {
+		case x != nil && x.Name == "tx" && sel.Sel.Name == "Cbor" && len(call.Args) == 0:
+			res = "stored"
+		case x != nil && x.Name == "cbor" && sel.Sel.Name == "Encode" && len(call.Args) == 1:
+			res = "encode"
+		}
+		done = true
+		return false
+	})
+	return res
+}
+
+// g1MarshalStoredFirst: does (*<Type>).MarshalCBOR start with
+// `cborData := t.DecodeStoreCbor.Cbor(); if cborData != nil (or len(cborData) > 0) { return cborData, nil }` ?
+func g1MarshalStoredFirst(era, typ string) bool {
+	p := loadPkg("ledger/" + era)
+	fd := findFunc(p, typ, "MarshalCBOR")
+	if fd == nil || fd.Body == nil || len(fd.Body.List) < 2 {
+		return false
+	}
+	as, ok := fd.Body.List[0].(*ast.AssignStmt)
+	if !ok || len(as.Lhs) != 1 || len(as.Rhs) != 1 {
+		return false
+	}
+	v, ok := as.Lhs[0].(*ast.Ident)
+	if !ok {
+		return false
+	}
+	call, ok := as.Rhs[0].(*ast.CallExpr)
+	if !ok {
+		return false
+	}
+	sel, ok := call.Fun.(*ast.SelectorExpr)
+	if !ok || sel.Sel.Name != "Cbor" {
+		return false
+	}
+	inner, ok := sel.X.(*ast.SelectorExpr)
+	if !ok || inner.Sel.Name != "DecodeStoreCbor" {
+		return false
+	}
+	is, ok := fd.Body.List[1].(*ast.IfStmt)
+	if !ok || is.Init != nil || len(is.Body.List) != 1 {
+		return false
+	}
+	be, ok := is.Cond.(*ast.BinaryExpr)
+	if !ok {
+		return false
+	}
+	condOk := false
+	if id, ok := be.X.(*ast.Ident); ok && id.Name == v.Name && be.Op == token.NEQ {
+		if y, ok := be.Y.(*ast.Ident); ok && y.Name == "nil" {
+			condOk = true
+		}
+	}
+	if c, ok := be.X.(*ast.CallExpr); ok && be.Op == token.GTR {
+		if f, ok := c.Fun.(*ast.Ident); ok && f.Name == "len" && len(c.Args) == 1 {
+			if a, ok := c.Args[0].(*ast.Ident); ok && a.Name == v.Name {
+				if y, ok := be.Y.(*ast.BasicLit); ok && y.Value == "0" {
+					condOk = true
+				}
+			}
+		}
+	}
+	if !condOk {
+		return false
+	}
+	r, ok := is.Body.List[0].(*ast.ReturnStmt)
+	if !ok || len(r.Results) != 2 {
+		return false
+	}
+	r0, ok0 := r.Results[0].(*ast.Ident)
+	r1, ok1 := r.Results[1].(*ast.Ident)
+	return ok0 && ok1 && r0.Name == v.Name && r1.Name == "nil"
+}
+
 // g1PkgDirs maps a package qualifier used in rule files to its directory.
 var g1PkgDirs = map[string]string{"common": "ledger/common", "shelley": "ledger/shelley", "conway": "ledger/conway"}
 
@@ -416,6 +527,24 @@ func init() {
 		g1Forwardings(l, "valueConservationDelegation", "UtxoValidateValueNotConservedUtxo", []string{"allegra", "dijkstra"})
 		g1Forwardings(l, "feeTooSmallDelegation", "UtxoValidateFeeTooSmallUtxo", []string{"allegra"})
 		g1Forwardings(l, "maxTxSizeDelegation", "UtxoValidateMaxTxSizeUtxo", []string{"allegra"})
+		{
+			parts := []string{}
+			for _, e := range []string{"shelley", "mary", "alonzo", "babbage", "conway", "dijkstra"} {
+				parts = append(parts, fmt.Sprintf("(\"%s\", \"%s\")", e, g1MaxSizeSource(e)))
+			}
+			l.pf("/-- what `UtxoValidateMaxTxSizeUtxo` measures per era -/\n")
+			l.pf("def maxSizeSource : List (String × String) := [%s]\n\n", strings.Join(parts, ", "))
+			parts = []string{}
+			for _, e := range [][2]string{{"alonzo", "AlonzoTransaction"}, {"babbage", "BabbageTransaction"}, {"conway", "ConwayTransaction"}} {
+				b := "false"
+				if g1MarshalStoredFirst(e[0], e[1]) {
+					b = "true"
+				}
+				parts = append(parts, fmt.Sprintf("(\"%s\", %s)", e[0], b))
+			}
+			l.pf("/-- does the era's transaction `MarshalCBOR` return the stored original bytes first? -/\n")
+			l.pf("def marshalReturnsStoredFirst : List (String × Bool) := [%s]\n\n", strings.Join(parts, ", "))
+		}
 		g1CondFact(l, "ledger/conway", "UtxoValidateWithdrawals", "protocolMajor", "withdrawalsGateSkipped")
 		g1Delegations(l, "withdrawalsDelegation", "UtxoValidateWithdrawals", []string{"conway"})
 		l.pf("end GV.Gen.G1Rules\n")
